@@ -265,6 +265,14 @@ func ruleC08Text(e *Env) {
 		},
 		ns.String(): func(ev *pred.Evaluator, args []pred.Val) (pred.Val, error) {
 			args = e.Unpermuted("size", "newSize", ns, args)
+			// without a unit newSize is the identity on a uint64 (C08.ovf: unit "" ⇒ the value itself, 0 needs "" among
+			// the zero units: C08.tab), so a text parser that has dropped its own `unit == ""` exit gives the same
+			// result; the atom is the one the table splits on anyway
+			if len(args) == 2 {
+				if ord, known := ev.Oracle.Cmp(args[1], pred.Const{V: constant.MakeString("")}); known && ord == 0 {
+					return pred.Tuple{args[0], pred.Const{}}, nil
+				}
+			}
 			return pred.Tuple{pred.Term{Fn: "newSize#0", Args: args}, pred.Term{Fn: "newSize#1", Args: args}}, nil
 		},
 	}
